@@ -7,7 +7,7 @@ import ast
 from ..core import Ctx, RuleResult, finding, short, walk_no_nested
 from ..model import AnalysisError, norm
 from ..mutants import Mut
-from ..rules import accum, inv, prog, ret
+from ..rules import accum, offstep, inv, prog, ret
 from ..rules.defuse import DefUse
 from ..rules.util import callee_name, cfg_of, nodes_where
 from ..tables import INV_EXCEPTIONS
@@ -276,12 +276,14 @@ def run(ctx: Ctx):
         rule_alphabet(ctx),
         rule_same_text(ctx),
         accum.run_accum(p, "C10.9", "C10", floor=3),
+        offstep.run_offstep(p, "C10.10", ["urwid.text_layout.calc_line_pos", "urwid.text_layout.calc_pos", "urwid.text_layout.calc_coords"], floor=0),
     ]
 
 
 _F = "urwid/widget/edit.py"
 _N = "urwid/numedit.py"
 MUTANTS = [
+    Mut("end-key-last-byte", "urwid/text_layout.py", "calc_line_pos", "        return calc_text_pos(text, s.offs, s.end, s.sc - 1)[0]\n\n    for seg in line_layout:", "        return s.end - 1\n\n    for seg in line_layout:", "OFFSTEP|text_layout.calc_line_pos"),
     Mut("pos-unclamped-low", _F, "Edit.set_edit_pos", "pos = min(max(pos, 0), len(self._edit_text))", "pos = min(pos, len(self._edit_text))", "WRITER|widget.edit.Edit.set_edit_pos"),
     Mut("text-written-by-insert", _F, "Edit.insert_text", "        self.set_edit_text(result_text)\n", "        self._edit_text = result_text\n", "WRITER|widget.edit.Edit.insert_text"),
     Mut("no-reclamp-after-replace", _F, "Edit.set_edit_text", "        self.edit_pos = min(self.edit_pos, len(text))\n", "", ("WRITER|widget.edit.Edit.set_edit_text", "PASS|widget.edit.Edit.set_edit_text")),
